@@ -27,6 +27,8 @@ func FromLines(lines []string) (*Module, error) {
 				out = append(out, F32)
 			case "f64":
 				out = append(out, F64)
+			case "v128":
+				out = append(out, V128)
 			default:
 				return nil, fmt.Errorf("type %q", x)
 			}
@@ -150,6 +152,16 @@ func Assemble(toks []string) (*Asm, error) {
 			a.GlobalSet(uint32(u))
 		case "call":
 			a.Call(uint32(u))
+		case "return_call":
+			a.ReturnCall(uint32(u))
+		case "vec":
+			parts := strings.SplitN(imm, ":", 2)
+			opc, _ := strconv.Atoi(parts[0])
+			var ib []byte
+			if len(parts) > 1 && parts[1] != "" {
+				fmt.Sscanf(parts[1], "%x", &ib)
+			}
+			a.Vec(uint32(opc), ib)
 		case "call_indirect":
 			a.CallIndirect(uint32(u))
 		case "br":
